@@ -29,7 +29,7 @@ func (c *Ctx) leaveModel() *handlerModel {
 			}
 		}
 		waits := false
-		ast.Inspect(fn.Decl.Body, func(n ast.Node) bool {
+		inspectFn(fn, func(n ast.Node) bool {
 			if u, ok := n.(*ast.UnaryExpr); ok && u.Op == token.ARROW && p.FieldOwner(u.X) == "Memberlist.leaveBroadcast" {
 				waits = true
 			}
@@ -48,6 +48,7 @@ func (c *Ctx) leaveModel() *handlerModel {
 	spec := &hSpec{c: c, kind: "leave", fn: target}
 	spec.recv = p.Info.Defs[target.Decl.Recv.List[0].Names[0]]
 	x := gea.New(p, target.Name, target.Decl.Type, target.Decl.Body, spec)
+	x.InlineCallee = c.inlinePolicy
 	x.Run()
 	if x.Trunc {
 		fail("exploration of %s exceeded the state limit", target.Name)
@@ -163,7 +164,7 @@ func checkLeaveWait(c *Ctx, l *handlerModel) {
 	rule := "Leave never blocks past its timeout: the wait for the departure notification sits in a select with a timer arm armed (time.After(timeout)) whenever timeout > 0, and is entered only when another live member exists"
 	c.Rule(rule)
 	var sel *ast.SelectStmt
-	ast.Inspect(l.fn.Decl.Body, func(n ast.Node) bool {
+	inspectFn(l.fn, func(n ast.Node) bool {
 		if s, ok := n.(*ast.SelectStmt); ok {
 			for _, cc := range s.Body.List {
 				if comm := cc.(*ast.CommClause).Comm; comm != nil {
@@ -202,67 +203,57 @@ func checkLeaveWait(c *Ctx, l *handlerModel) {
 			}
 		}
 	}
-	ok := false
-	why := "the select has no second arm that receives from a timer channel and returns an error"
+	// the exploration of Leave (helpers extracted from it are followed in place):
+	// every wait on the departure notification
+	var tparam *ast.Ident
+	for _, f := range l.fn.Decl.Type.Params.List {
+		for _, n := range f.Names {
+			if core.NamedPkgOf(p.TypeOf(f.Type)) == "time.Duration" {
+				tparam = n
+			}
+		}
+	}
+	chKey := ""
 	if id, isId := chObj.(*ast.Ident); isId {
-		why = "the timer channel is not armed with time.After(timeout) under timeout > 0"
-		obj := p.Info.Uses[id]
-		var tparam *ast.Ident
-		for _, f := range l.fn.Decl.Type.Params.List {
-			for _, n := range f.Names {
-				if core.NamedPkgOf(p.TypeOf(f.Type)) == "time.Duration" {
-					tparam = n
+		chKey = l.x.Canon(id, nil)
+	}
+	tname := ""
+	if tparam != nil {
+		tname = l.x.Canon(tparam, nil)
+	}
+	nWait := 0
+	for _, e := range l.x.Effects {
+		if e.Class != "RECV" || e.Detail["chan"] != "m.leaveBroadcast" {
+			continue
+		}
+		nWait++
+		// (a) whenever timeout > 0 may hold on this path, the select's other arm waits on time.After(timeout)
+		ok, why := true, ""
+		if chKey == "" || tname == "" {
+			ok, why = false, "the select has no second arm that receives from a timer channel variable and returns an error (or Leave has no timeout parameter)"
+		} else if e.Cube[tname+">=1"] != "F" {
+			v := e.Store[chKey]
+			if v.K != gea.KSym || !strings.HasPrefix(v.S, "time.After("+tname+")") {
+				ok, why = false, fmt.Sprintf("the wait can be entered with timeout > 0 while the timer arm's channel %s holds %s, not time.After(timeout) {%s}", untok(chKey), untok(v.String()), gea.CubeString(e.Cube))
+			}
+		}
+		c.Check("C08/leave/wait-timeout", rule, e.Pos, ok, why)
+		// (b) the wait is entered only when another live member exists
+		guarded := false
+		for k, v := range e.Cube {
+			if v != "T" || !strings.HasPrefix(k, "?m.") {
+				continue
+			}
+			name := strings.TrimPrefix(k, "?m.")
+			if i := strings.Index(name, "("); i > 0 {
+				if fi := p.Func("Memberlist." + name[:i]); fi != nil && rangesNodesForOtherLive(p, fi) {
+					guarded = true
 				}
 			}
 		}
-		ast.Inspect(l.fn.Decl.Body, func(n ast.Node) bool {
-			ifs, isIf := n.(*ast.IfStmt)
-			if !isIf || tparam == nil {
-				return true
-			}
-			be, isB := ast.Unparen(ifs.Cond).(*ast.BinaryExpr)
-			if !isB {
-				return true
-			}
-			x, isX := ast.Unparen(be.X).(*ast.Ident)
-			v, isC := p.ConstInt(be.Y)
-			if !isX || !isC || p.Info.Uses[x] != p.Info.Defs[tparam] || !((be.Op == token.GTR && v == 0) || (be.Op == token.GEQ && v == 1) || (be.Op == token.NEQ && v == 0)) {
-				return true
-			}
-			for _, st := range ifs.Body.List {
-				as, isA := st.(*ast.AssignStmt)
-				if !isA || len(as.Lhs) != 1 || len(as.Rhs) != 1 {
-					continue
-				}
-				lid, isL := as.Lhs[0].(*ast.Ident)
-				call, isCall := ast.Unparen(as.Rhs[0]).(*ast.CallExpr)
-				if !isL || !isCall || p.Info.Uses[lid] != obj {
-					continue
-				}
-				if f := p.Callee(call); f != nil && core.FuncFullName(f) == "time.After" && len(call.Args) == 1 {
-					if a, isA := ast.Unparen(call.Args[0]).(*ast.Ident); isA && p.Info.Uses[a] == p.Info.Defs[tparam] {
-						ok = true
-					}
-				}
-			}
-			return true
-		})
+		c.Check("C08/leave/wait-only-with-peers", rule, e.Pos, guarded, "the wait is not guarded by a test that another live member exists {"+gea.CubeString(e.Cube)+"}")
 	}
-	c.Check("C08/leave/wait-timeout", rule, sel.Pos(), ok, why)
-	// the select is guarded by the "another live member exists" test
-	guarded := false
-	for cur := p.Parent(sel); cur != nil; cur = p.Parent(cur) {
-		if ifs, isIf := cur.(*ast.IfStmt); isIf {
-			if call, isCall := ast.Unparen(ifs.Cond).(*ast.CallExpr); isCall {
-				if f := p.Callee(call); f != nil && f.Pkg() == p.Types {
-					if fi := p.ByObj[f]; fi != nil && rangesNodesForOtherLive(p, fi) {
-						guarded = true
-					}
-				}
-			}
-		}
-	}
-	c.Check("C08/leave/wait-only-with-peers", rule, sel.Pos(), guarded, "the wait is not guarded by a test that another live member exists")
+	c.Floor("waits on the departure notification in Leave", nWait, 1)
 }
 
 func isNilIdent(p *core.Prog, e ast.Expr) bool {
@@ -274,7 +265,7 @@ func isNilIdent(p *core.Prog, e ast.Expr) bool {
 // not dead/left and is not the local node.
 func rangesNodesForOtherLive(p *core.Prog, fn *core.Func) bool {
 	ok := false
-	ast.Inspect(fn.Decl.Body, func(n ast.Node) bool {
+	inspectFn(fn, func(n ast.Node) bool {
 		rs, isR := n.(*ast.RangeStmt)
 		if !isR || p.FieldOwner(rs.X) != "Memberlist.nodes" {
 			return true
